@@ -110,6 +110,19 @@ def dropElems : List Elem → M Unit
   | [] => pure ()
   | e :: rest => tryFinally (dropElem e) (dropElems rest)
 
+/-- the two `Dropper` guards at the end of `drop_range`: the slots `[from, to)`, or — when that run
+wraps — `[from, cap)` followed by `[0, to)`.  `_left` is declared first and `_right` second, so
+`_right` is dropped first and `_left` runs even if a destructor in `_right` panics. -/
+def dropSegments (dropFrom dropTo cap : Nat) : M Unit :=
+  if dropFrom < dropTo then do
+    checkRange dropFrom dropTo cap
+    tryFinally (dropInPlace (List.range' dropFrom (dropTo - dropFrom))) (pure ())
+  else do
+    -- `split_at_mut(drop_from)`; `&mut left[..drop_to]`
+    checkRange dropTo dropFrom cap
+    tryFinally (dropInPlace (List.range' dropFrom (cap - dropFrom)))
+      (dropInPlace (List.range' 0 dropTo))
+
 /-- `drop_range(range)`: destroys the elements at logical positions `rs..re` (which must touch one
 end of the buffer) **after** shrinking the buffer accordingly. -/
 def dropRange (rs re : Nat) : M Unit := do
@@ -130,15 +143,7 @@ def dropRange (rs re : Nat) : M Unit := do
       setStart dropTo
       let n ← liftE (usub b.size re)
       setSize n
-    if dropFrom < dropTo then do
-      checkRange dropFrom dropTo b.cap
-      -- `_left` (empty) declared first, `_right` second: `_right` is dropped first
-      tryFinally (dropInPlace (List.range' dropFrom (dropTo - dropFrom))) (pure ())
-    else do
-      -- `split_at_mut(drop_from)`; `&mut left[..drop_to]`
-      checkRange dropTo dropFrom b.cap
-      tryFinally (dropInPlace (List.range' dropFrom (b.cap - dropFrom)))
-        (dropInPlace (List.range' 0 dropTo))
+    dropSegments dropFrom dropTo b.cap
 
 /-! ## element access -/
 
